@@ -22,6 +22,8 @@ Property sentence ↔ theorem
   unchanged code                          ↔ `FullUnfixed`, `counterexample`
 -/
 import NtpVerif.Proofs.SourceSM
+import NtpVerif.Model.SourceBytes
+import NtpVerif.Props.C25
 
 namespace NtpVerif.C07
 open NtpVerif.SourceSM NtpVerif.CookieStash
@@ -182,6 +184,67 @@ theorem cookies_only_when_accepted (s : State) (now : Nat) (parsed : Option Pkt)
     (handleIncoming s now parsed a b bl).1.nts = s.nts :=
   (incoming_frame true s now parsed a b bl _ rfl h).2.2.2.2.1
 
+/-! #### end to end, on the received bytes
+
+`incomingBytes` = real parser model (`NtpVerif.Model.Packet`, ideal-AEAD oracle) followed by `recordOfParse` and the
+state machine; tied to the implementation by stream `sm_bytes` (the Lean side computes the record from the BYTES).
+Combines `unauthenticated_no_effect` with C25's `nothing_unless_decrypt` / `authentic_implies_sealed_prefix`. -/
+
+open NtpVerif.Wire NtpVerif.SourceBytes in
+/-- a packet in which the parser reports nothing as authentic yields a record without authenticated or encrypted
+    unique identifiers -/
+theorem record_nothing_authentic (p : Packet) (h : p.NothingAuthentic) :
+    (recordOfPacket p).uidAuth = [] ∧ (recordOfPacket p).uidEnc = [] := by
+  obtain ⟨ha, he⟩ := h
+  unfold recordOfPacket
+  cases hh : p.header <;> simp [record34, record5, uidsOf, ha, he]
+
+open NtpVerif.Wire NtpVerif.SourceBytes in
+/-- **C07.bytes_no_decrypt_no_effect** — for EVERY cipher (decryption oracle `dec`): if no decryption whose
+    associated data is a prefix (of at least the 48 header bytes) of the received datagram succeeds, then
+    `handle_incoming` on those bytes, for an NTS source, changes nothing and emits nothing. -/
+theorem bytes_no_decrypt_no_effect (dec : Dec) (key : Bytes) (s : State) (now : Nat) (data : Bytes) (a b : Nat)
+    (bl : Option Bool) (hinv : NtsInv s) (h : NoPrefixDecrypts dec data) :
+    incomingBytes dec (some key) s now data a b bl = (s, .ignore) := by
+  have hrn := C25.nothing_unless_decrypt dec (ctxOf (some key)) data h
+  unfold incomingBytes
+  cases hp : parse dec (ctxOf (some key)) data with
+  | ok p c =>
+    rw [hp] at hrn
+    obtain ⟨hua, hue⟩ := record_nothing_authentic p hrn.1
+    apply unauthenticated_no_effect s now _ a b bl hinv
+    rintro ⟨p', id, dl, uid, hp', _, _, _, _, hc⟩
+    simp only [recordOfParse, Option.some.injEq] at hp'
+    subst hp'
+    rw [hua, hue] at hc
+    rcases hc with hc | hc <;> simp [checkUid] at hc
+  | decryptErr p => rfl
+  | err e => rfl
+  | panic => rfl
+  | fuel => rfl
+
+open NtpVerif.Wire NtpVerif.SourceBytes in
+/-- **C07.bytes_unauthenticated_no_effect** — ideal AEAD with the table `T` of all sealings ever performed (under
+    any key): if no recorded sealing has as associated data a prefix (≥ 48 bytes) of the received datagram — i.e.
+    the datagram is not an authenticator-carrying packet whose covered part was sealed by a key holder — then
+    `incoming` on those bytes is a no-op for an NTS source: no measurement, no demobilisation, no poll-rate,
+    version or cookie change. -/
+theorem bytes_unauthenticated_no_effect (T : Table) (key : Bytes) (s : State) (now : Nat) (data : Bytes)
+    (a b : Nat) (bl : Option Bool) (hinv : NtsInv s)
+    (h : ∀ e ∈ T, ¬ (48 ≤ e.aad.length ∧ e.aad = data.take e.aad.length)) :
+    incomingBytes T.decrypt (some key) s now data a b bl = (s, .ignore) := by
+  apply bytes_no_decrypt_no_effect T.decrypt key s now data a b bl hinv
+  intro k nonce ct n h48 hn
+  cases hd : T.decrypt k nonce ct (data.take n) with
+  | none => rfl
+  | some pt =>
+    exfalso
+    obtain ⟨e, he, _, _, _, ha⟩ := Table.decrypt_some hd
+    apply h e he
+    rw [ha]
+    simp only [List.length_take, Nat.min_eq_left hn]
+    exact ⟨h48, trivial⟩
+
 /-! #### the unchanged code: finding F-C07 -/
 
 /-- the property for the code as it stands (RATE / DENY tested before the NTS-NAK arm) -/
@@ -251,3 +314,5 @@ end NtpVerif.C07
 #print axioms NtpVerif.C07.cookies_from_encrypted
 #print axioms NtpVerif.C07.cookies_only_when_accepted
 #print axioms NtpVerif.C07.counterexample
+#print axioms NtpVerif.C07.bytes_no_decrypt_no_effect
+#print axioms NtpVerif.C07.bytes_unauthenticated_no_effect
